@@ -28,6 +28,19 @@ offsets 0..17 - multiples and non-multiples of the union's alignment -, (2) as `
 fixed layout and after a dynamically sized field.  The stream must advance by exactly len(U) (n * len(U)), every member of
 every parsed union must equal the parse of its type from exactly the len(U) bytes at the union's place, and the field after
 the unions must hold the byte that follows them.
+
+Anonymous members below a named member (harness/v8_c11.py, own PRNG stream): unions with a NAMED structure member whose definition
+contains an anonymous structure or anonymous union (up to three levels: anonymous inside anonymous inside the named member, named
+structures inside the anonymous part and next to it), declared inline / as named type / as typedef, next to plain members (scalars,
+arrays, a covering byte array, plain structures, an anonymous structure directly in the union); < / >, packed / aligned, interpreted /
+compiled; parsed from bytes or a stream, default-constructed, or embedded as a member of an outer structure.  Histories of 1-6
+steps assign fields of the anonymous parts through the forwarded attributes of the named member (`u.h.lo = v`, `u.h.x = v`), named
+fields of that member, fields of the other members, whole structure members (`u.h = H(bytes)`, `u.h = u.h`).  Right after parsing and
+after every step every member must equal the textbook parse (refimpl) of its type from a reference buffer kept by the probe, the dump
+of the union, of each structure member (`bytes(u.h)`) and of the outer structure must show the reference bytes, and fields read back
+through the forwarded attributes must decode them.  The same histories go to the Lean model (shapes without a nested union).  Shapes
+stay outside F9F10 (the dump member covers the union; a covering byte array is put in front otherwise), F44 and F56 (the anonymous
+unions have scalar / array members only, no union directly in a union), F49 (arrays are assigned as a whole).
 """
 from __future__ import annotations
 
@@ -176,6 +189,12 @@ def run(env) -> Result:
                 "union's bytes, the following field holds the following byte. "
                 "Unions nested in unions (2 and 3 levels, byte-array views at every level, packed, interpreted / compiled): histories of "
                 "assignments through o.i.s.x / i.rawi / q / raw, after every step dump and every view == the reference buffer. "
+                "Anonymous below a named member: unions with a named struct member containing anonymous structs / unions (1-3 levels, inline / "
+                "named type / typedef) next to plain members, {<,>} x {packed, aligned} x {interpreted, compiled}, parsed from bytes / a stream, "
+                "default-constructed or embedded in an outer struct; histories of 1-6 steps (forwarded field of the anonymous part through the "
+                "named member, named fields, fields of other members, whole member from fresh bytes, u.h = u.h); after parsing and after every "
+                "step: each member == textbook parse of its type from the reference buffer, dumps / bytes(u.h) / outer dumps == reference bytes "
+                "at data-carrying bits, forwarded reads decode the reference bytes, len(U) and consumption == largest member (aligned: rounded up). "
                 "distinct = (definition, config, contents, history prefix); non-trivial = history of >= 1 assignment")
     dc = impl.dc()
     rnd = mkrng(env["seed"], "c11")
@@ -415,6 +434,10 @@ def run(env) -> Result:
     # ---- unions nested in unions, assignments two and three levels deep (real code against a reference buffer; harness/v4_c11.py)
     from .. import v4_c11
     v4_c11.run(env, res, viol, mkrng(env["seed"], "c11-nested"), dc)
+    # ---- anonymous structs / unions BELOW a named structure member, reached through the forwarded attributes (harness/v8_c11.py);
+    #      own PRNG stream, the model lines join the batch below
+    from .. import v8_c11
+    v8_c11.run(env, res, viol, mkrng(env["seed"], "c11-anon-below-named"), dc, lines, metas)
 
     answers = run_driver(lines) if env["driver_ok"] else [None] * len(lines)
     for (cd, buf, vals, dump), ans in zip(metas, answers):
